@@ -4,6 +4,7 @@ import SciVerif.Lemmas.C18d
 import SciVerif.Lemmas.C18e
 import SciVerif.Lemmas.C18g
 import SciVerif.Lemmas.C18h
+import SciVerif.Lemmas.C18i
 
 /-!
 # C18 — DIP expressions compute unit-aware results under the documented priorities
@@ -309,6 +310,34 @@ theorem C18_numeric_units {K : Type} [Field K] (av : A → QV K)
           convert this using 3
           simp; rw [div_mul_div_comm]
 
+/-- **Unit-aware arithmetic with prefix signs is exact**: `C18_numeric_units` extended to trees that
+    also contain the prefix signs ` - x` / ` + x` anywhere (`E.ArithS` ⊇ `E.Arith`): negating the
+    magnitude of an operand in its own unit is negating its SI value, so evaluation with units agrees
+    with evaluation on SI values — same refusals, same value.  (Functions and `**` stay outside:
+    over an abstract field they are uninterpreted.) -/
+theorem C18_numeric_units_signs {K : Type} [Field K] (av : A → QV K)
+    (hav : ∀ a, Agrees (av a) ((av a).map (Quant.toSI (fieldOps K))))
+    (e : E A) (he : e.ArithS) :
+    Agrees (e.eval (numSem (fieldOps K)) (numBinSem (fieldOps K)) (numPreSem (fieldOps K)) av)
+      (evalSI (fieldOps K) (fun a => (av a).map (Quant.toSI (fieldOps K))) e) := by
+  induction e with
+  | lit a => exact hav a
+  | par e ih =>
+    have h := ih he
+    simp only [E.eval, evalSI]
+    rw [show (numSem (fieldOps K)).fn = numFn (fieldOps K) from rfl, numFn_par, siFn_par]
+    exact h
+  | fn1 f a _ => exact he.elim
+  | fn2 f a b _ _ => exact he.elim
+  | pre u e ih =>
+    obtain ⟨hu, h⟩ := he
+    simp only [E.eval, evalSI]
+    exact agrees_pre u hu _ _ (ih h)
+  | bin o l r ihl ihr =>
+    obtain ⟨ho, hl, hr⟩ := he
+    simp only [E.eval, evalSI]
+    exact agrees_bin o ho _ _ _ _ (ihl hl) (ihr hr)
+
 /-! ### templates -/
 
 /-- Full statement: the round trip below also for holes that carry a slice `[a:b,c]` — a non-empty
@@ -388,6 +417,9 @@ theorem C18_template_plain (hole : HoleFn) (s : List Char) (h : PlainOK s) :
   exact this
 
 /-! Non-vacuity: concrete well-formed trees / hypotheses. -/
+/-- ` - (1 -  + 2) * 3` -/
+example : (E.bin "mul" (.pre "sub" (.par (.bin "sub" (.lit (1 : Nat)) (.pre "add" (.lit 2))))) (.lit 3)).ArithS := by
+  simp [E.ArithS]
 /-- `"{ }{{?a}}"`: a copied `{` (followed by a blank and `}`), then a hole -/
 example : PiecesOK [.text '{', .text ' ', .text '}', .hole "?a".toList none none] := by
   refine ⟨Or.inr (by decide), Or.inl (by decide), Or.inl (by decide), ?_, trivial⟩
